@@ -17,6 +17,7 @@ import (
 	"verif/internal/cli"
 	"verif/internal/gen"
 	"verif/internal/pbt"
+	"verif/internal/refmodels"
 )
 
 func TestMain(m *testing.M) {
@@ -95,7 +96,7 @@ func (s *stream) next() uint64 {
 	z = (z ^ (z >> 27)) * 0x94d049bb133111eb
 	return z ^ (z >> 31)
 }
-func (s *stream) unit() float64 { return float64(s.next()>>11) / (1 << 53) }
+func (s *stream) unit() float64  { return float64(s.next()>>11) / (1 << 53) }
 func (s *stream) intn(n int) int { return int(s.next() % uint64(n)) }
 
 // genAli: rows derived from a drawn ancestor with a per-row divergence from 0 to saturated, then
@@ -111,6 +112,11 @@ func genAli(t *rapid.T, minRows, maxRows int) gen.Ali {
 	default:
 		l = rapid.IntRange(31, 80).Draw(t, "L")
 	}
+	return genAliDims(t, n, l)
+}
+
+// genAliDims: the same for given dimensions
+func genAliDims(t *rapid.T, n, l int) gen.Ali {
 	// residue pool: the whole alphabet or a few letters (skewed composition)
 	pool := aa20
 	if rapid.IntRange(0, 4).Draw(t, "pool") == 4 {
@@ -253,18 +259,7 @@ func mlDist(a gen.Ali, cfg config, weights []float64) ([][]float64, error) {
 	if d == nil {
 		return nil, fmt.Errorf("nil matrix")
 	}
-	r, c := d.Dims()
-	if r != len(a.Rows) || c != len(a.Rows) {
-		return nil, fmt.Errorf("matrix is %dx%d for %d sequences", r, c, len(a.Rows))
-	}
-	out := make([][]float64, r)
-	for i := range out {
-		out[i] = make([]float64, c)
-		for j := range out[i] {
-			out[i][j] = d.At(i, j)
-		}
-	}
-	return out, nil
+	return denseToRows(d, len(a.Rows))
 }
 
 // ---- oracle ----------------------------------------------------------------------------------------------
@@ -342,34 +337,47 @@ type reading struct {
 
 func newReading(a gen.Ali, cfg config, w []float64, strict bool) (*reading, error) {
 	rd := &reading{sel: selectedSites(a, cfg.RmGaps, strict), gamma: cfg.Gamma, alpha: cfg.Alpha}
-	m, err := pm.NewProtModel(modelCode(cfg.Model), cfg.Gamma, cfg.Alpha)
+	// the rate matrix is rebuilt here from the published exchangeabilities and the frequencies in use,
+	// scaled to one expected substitution per unit time, and decomposed by the harness (Jacobi rotations
+	// on the symmetrised matrix): nothing of models/protein.ProtModel is used
+	s, freqs, err := refmodels.ProtData(cfg.Model)
 	if err != nil {
 		return nil, err
 	}
-	var user []float64
 	if !cfg.ModelFreqs {
-		user = empiricalPi(a, w, rd.sel)
+		freqs = empiricalPi(a, w, rd.sel)
 	}
-	if err = m.InitModel(user); err != nil {
-		return nil, err
+	sum := 0.0
+	for _, f := range freqs {
+		sum += f
 	}
-	val, left, right, err := m.Eigens()
-	if err != nil {
-		return nil, err
-	}
-	rd.val = append([]float64{}, val...)
 	rd.pi = make([]float64, 20)
-	rd.r = make([][]float64, 20)
-	rd.l = make([][]float64, 20)
+	for i := range rd.pi {
+		rd.pi[i] = freqs[i] / sum
+	}
+	// published vectors sum to 1 within 1e-6 only; the mean rate is taken over the vector as given
+	// (PAML convention); the other reading moves every distance by a factor 1 +- 1e-6, far below what
+	// the likelihood test resolves
+	q := refmodels.ProtQ(s, freqs, freqs)
+	val, left, right := refmodels.ReversibleEigen(q, rd.pi)
+	// self-check of the decomposition: right diag(val) left = q, right left = I
 	for i := 0; i < 20; i++ {
-		rd.pi[i] = m.Pi(i)
-		rd.r[i] = make([]float64, 20)
-		rd.l[i] = make([]float64, 20)
 		for j := 0; j < 20; j++ {
-			rd.r[i][j] = right.At(i, j)
-			rd.l[i][j] = left.At(i, j)
+			id, qq := 0.0, 0.0
+			for k := 0; k < 20; k++ {
+				id += right[i][k] * left[k][j]
+				qq += right[i][k] * val[k] * left[k][j]
+			}
+			want := 0.0
+			if i == j {
+				want = 1
+			}
+			if math.Abs(id-want) > 1e-10 || math.Abs(qq-q[i][j]) > 1e-9*(1+math.Abs(q[i][j])) {
+				return nil, fmt.Errorf("eigen-decomposition of the reference rate matrix is inaccurate at (%d,%d): %g %g / %g", i, j, id, qq, q[i][j])
+			}
 		}
 	}
+	rd.val, rd.r, rd.l = val, right, left
 	return rd, nil
 }
 
@@ -734,6 +742,178 @@ func classes(o *pbt.Outcome, cfg config, weighted bool) {
 
 func TestDistances(t *testing.T) { pbt.Run(t, genDist, checkDist) }
 
+// ---- one model object applied to several alignments -----------------------------------------------------
+//
+// cmd/computedist.go and cmd/distboot.go build one ProtDistModel (model frequencies), call
+// InitModel(nil, nil) once and then MLDist(alignment, weights) for every alignment of the input file /
+// every bootstrap replicate. The statement quantifies over alignments: the matrix of an alignment
+// must not depend on the alignments the model object has seen before.
+
+type reuseCase struct {
+	Alis    []gen.Ali   `json:"alis"`
+	Weights [][]float64 `json:"weights"` // per alignment: nil or positive weights (distboot -c)
+	Cfg     config      `json:"cfg"`
+}
+
+// resample: bootstrap-like replicate of a (columns drawn with replacement): same dimensions and
+// composition, the gaps sit in other columns
+func resample(t *rapid.T, a gen.Ali) gen.Ali {
+	st := &stream{rapid.Uint64().Draw(t, "bootseed")}
+	l := a.Length()
+	cols := make([]int, l)
+	for j := range cols {
+		cols[j] = st.intn(l)
+	}
+	out := gen.Ali{Alphabet: a.Alphabet}
+	for _, r := range a.Rows {
+		b := make([]byte, l)
+		for j, k := range cols {
+			b[j] = r.Seq[k]
+		}
+		out.Rows = append(out.Rows, gen.Row{Name: r.Name, Seq: string(b)})
+	}
+	return out
+}
+
+func genAlis(t *rapid.T, maxRows int) []gen.Ali {
+	first := genAli(t, 2, maxRows)
+	alis := []gen.Ali{first}
+	k := rapid.IntRange(2, 3).Draw(t, "nali")
+	for len(alis) < k {
+		prev := alis[len(alis)-1]
+		switch rapid.IntRange(0, 5).Draw(t, "next") {
+		case 0, 1: // same dimensions, other content
+			alis = append(alis, genAliDims(t, len(prev.Rows), prev.Length()))
+		case 2, 3: // replicate of the previous one
+			alis = append(alis, resample(t, prev))
+		case 4: // same length, other number of rows
+			alis = append(alis, genAliDims(t, rapid.IntRange(2, maxRows).Draw(t, "rows2"), prev.Length()))
+		default:
+			alis = append(alis, genAli(t, 2, maxRows))
+		}
+	}
+	return alis
+}
+
+func genReuse(t *rapid.T) reuseCase {
+	var c reuseCase
+	c.Alis = genAlis(t, 5)
+	c.Cfg = genConfig(t, true)
+	// gap-site removal is what makes the history matter most
+	if rapid.IntRange(0, 3).Draw(t, "forcerm") > 0 {
+		c.Cfg.RmGaps = true
+	}
+	c.Weights = make([][]float64, len(c.Alis))
+	if rapid.IntRange(0, 3).Draw(t, "weighted") == 0 {
+		for i, a := range c.Alis {
+			if rapid.Bool().Draw(t, "wi") {
+				c.Weights[i] = make([]float64, a.Length())
+				for j := range c.Weights[i] {
+					c.Weights[i][j] = rapid.SampledFrom([]float64{1, 2, 0.5, 3, 0.25, 1.5}).Draw(t, "w")
+				}
+			}
+		}
+	}
+	return c
+}
+
+func denseToRows(d interface {
+	Dims() (int, int)
+	At(i, j int) float64
+}, n int) ([][]float64, error) {
+	if d == nil {
+		return nil, fmt.Errorf("nil matrix")
+	}
+	r, c := d.Dims()
+	if r != n || c != n {
+		return nil, fmt.Errorf("matrix is %dx%d for %d sequences", r, c, n)
+	}
+	out := make([][]float64, r)
+	for i := range out {
+		out[i] = make([]float64, c)
+		for j := range out[i] {
+			out[i][j] = d.At(i, j)
+		}
+	}
+	return out, nil
+}
+
+func checkReuse(c reuseCase) (o pbt.Outcome, err error) {
+	if len(c.Alis) < 2 || len(c.Weights) != len(c.Alis) || !c.Cfg.ModelFreqs {
+		o.Skip = true
+		return o, nil
+	}
+	for i, a := range c.Alis {
+		if !domainOK(a, c.Cfg, c.Weights[i]) {
+			o.Skip = true
+			return o, nil
+		}
+	}
+	// exactly the call pattern of the commands
+	m, e := protein.NewProtDistModel(modelCode(c.Cfg.Model), true, c.Cfg.Gamma, c.Cfg.Alpha, c.Cfg.RmGaps)
+	if e != nil {
+		return o, fmt.Errorf("NewProtDistModel: %v", e)
+	}
+	if e = m.InitModel(nil, nil); e != nil {
+		return o, fmt.Errorf("InitModel(nil, nil): %v", e)
+	}
+	history := false
+	for i, a := range c.Alis {
+		var w []float64
+		if c.Weights[i] != nil {
+			w = append([]float64{}, c.Weights[i]...)
+		}
+		_, _, dm, e := m.MLDist(gen.MustBuild(a), w)
+		if e != nil {
+			return o, fmt.Errorf("alignment %d of %d through one model object: %v", i+1, len(c.Alis), e)
+		}
+		d, e := denseToRows(dm, len(a.Rows))
+		if e != nil {
+			return o, fmt.Errorf("alignment %d of %d through one model object: %v", i+1, len(c.Alis), e)
+		}
+		// the oracle, on the matrix of the re-used model
+		v, e := judge(a, c.Cfg, c.Weights[i], d, &o)
+		if e != nil {
+			return o, fmt.Errorf("alignment %d of %d (%s) through a model object already applied to the previous ones: %v", i+1, len(c.Alis), gen.Show(a.Rows), e)
+		}
+		// and the same matrix as a model that has seen nothing else
+		fresh, e := mlDist(a, c.Cfg, c.Weights[i])
+		if e != nil {
+			return o, fmt.Errorf("alignment %d alone: %v", i+1, e)
+		}
+		for x := range d {
+			for y := range d[x] {
+				if math.Abs(d[x][y]-fresh[x][y]) > 1e-9 {
+					return o, fmt.Errorf("alignment %d of %d: d[%d][%d] = %.12g through a model object already applied to the previous alignments, %.12g through a fresh one", i+1, len(c.Alis), x, y, d[x][y], fresh[x][y])
+				}
+			}
+		}
+		if i > 0 {
+			prev := c.Alis[i-1]
+			if prev.Length() == a.Length() {
+				o.Class("follows an alignment of the same length")
+				if c.Cfg.RmGaps {
+					ps, as := selectedSites(prev, true, true), selectedSites(a, true, true)
+					for j := range ps {
+						if ps[j] != as[j] {
+							history = history || v.nonTrivial
+							o.Class("same length, other gap-free columns")
+							break
+						}
+					}
+				}
+			} else {
+				o.Class("follows an alignment of another length")
+			}
+		}
+	}
+	o.NonTrivial = history
+	classes(&o, c.Cfg, c.Weights[0] != nil)
+	return o, nil
+}
+
+func TestModelReuse(t *testing.T) { pbt.Run(t, genReuse, checkReuse) }
+
 // ---- the repaired findings, as regression tests -----------------------------------------------------------
 
 type knownCase struct {
@@ -795,40 +975,56 @@ func TestKnownEarlyStop(t *testing.T) {
 // ---- command line tier -------------------------------------------------------------------------------------
 
 type cliCase struct {
-	Ali     gen.Ali `json:"ali"`
-	Cfg     config  `json:"cfg"`
-	Average bool    `json:"average"`
+	Alis    []gen.Ali `json:"alis"` // one alignment: FASTA or Phylip; several: one Phylip file
+	Phylip  bool      `json:"phylip"`
+	Cfg     config    `json:"cfg"`
+	Average bool      `json:"average"`
 }
 
-// parseMatrix: independent reader of the output of compute distance: first line n, then n lines
-// "name<TAB>v1<TAB>...<TAB>vn"
-func parseMatrix(out string) (names []string, d [][]float64, err error) {
+// parseMatrices: independent reader of the output of compute distance: for every alignment of the
+// input a line n, then n lines "name<TAB>v1<TAB>...<TAB>vn"
+func parseMatrices(out string) (names [][]string, ds [][][]float64, err error) {
 	lines := strings.Split(strings.TrimRight(out, "\n"), "\n")
-	if len(lines) < 1 {
-		return nil, nil, fmt.Errorf("empty output")
-	}
-	n, e := strconv.Atoi(strings.TrimSpace(lines[0]))
-	if e != nil {
-		return nil, nil, fmt.Errorf("first line is not a count: %q", lines[0])
-	}
-	if len(lines) != n+1 {
-		return nil, nil, fmt.Errorf("%d lines after the count %d", len(lines)-1, n)
-	}
-	for _, ln := range lines[1:] {
-		f := strings.Split(ln, "\t")
-		if len(f) != n+1 {
-			return nil, nil, fmt.Errorf("line %q has %d fields, want %d", ln, len(f), n+1)
+	for pos := 0; pos < len(lines); {
+		n, e := strconv.Atoi(strings.TrimSpace(lines[pos]))
+		if e != nil || n < 0 {
+			return nil, nil, fmt.Errorf("line %d is not a count: %q", pos+1, lines[pos])
 		}
-		names = append(names, f[0])
-		row := make([]float64, n)
-		for j := range row {
-			if row[j], e = strconv.ParseFloat(f[j+1], 64); e != nil {
-				return nil, nil, fmt.Errorf("not a number: %q", f[j+1])
+		if pos+1+n > len(lines) {
+			return nil, nil, fmt.Errorf("%d lines after the count %d", len(lines)-pos-1, n)
+		}
+		var nm []string
+		var d [][]float64
+		for _, ln := range lines[pos+1 : pos+1+n] {
+			f := strings.Split(ln, "\t")
+			if len(f) != n+1 {
+				return nil, nil, fmt.Errorf("line %q has %d fields, want %d", ln, len(f), n+1)
 			}
+			nm = append(nm, f[0])
+			row := make([]float64, n)
+			for j := range row {
+				if row[j], e = strconv.ParseFloat(f[j+1], 64); e != nil {
+					return nil, nil, fmt.Errorf("not a number: %q", f[j+1])
+				}
+			}
+			d = append(d, row)
 		}
-		d = append(d, row)
+		names, ds = append(names, nm), append(ds, d)
+		pos += n + 1
 	}
 	return
+}
+
+// phylip writes the alignments one after the other in sequential Phylip
+func phylip(alis []gen.Ali) string {
+	var sb strings.Builder
+	for _, a := range alis {
+		fmt.Fprintf(&sb, " %d %d\n", len(a.Rows), a.Length())
+		for _, r := range a.Rows {
+			fmt.Fprintf(&sb, "%s  %s\n", r.Name, r.Seq)
+		}
+	}
+	return sb.String()
 }
 
 func TestCLI(t *testing.T) {
@@ -838,21 +1034,46 @@ func TestCLI(t *testing.T) {
 	dir := cli.TempDir("c17cli")
 	pbt.Run(t, func(t *rapid.T) cliCase {
 		var c cliCase
-		c.Ali = genAli(t, 2, 5)
-		// a constant column of L: the file is then recognised as amino acids whatever was drawn
-		for i := range c.Ali.Rows {
-			c.Ali.Rows[i].Seq += "L"
+		if rapid.IntRange(0, 2).Draw(t, "multi") == 0 {
+			c.Alis = []gen.Ali{genAli(t, 2, 5)}
+			c.Phylip = rapid.Bool().Draw(t, "phylip")
+		} else {
+			// several alignments in one file: the command applies one model object to all of them
+			c.Alis = genAlis(t, 4)
+			c.Phylip = true
+		}
+		// a constant column of L: every alignment is then recognised as amino acids whatever was drawn
+		for k := range c.Alis {
+			for i := range c.Alis[k].Rows {
+				c.Alis[k].Rows[i].Seq += "L"
+			}
 		}
 		c.Cfg = genConfig(t, true)
+		if len(c.Alis) > 1 && rapid.IntRange(0, 3).Draw(t, "forcerm") > 0 {
+			c.Cfg.RmGaps = true
+		}
 		c.Average = rapid.IntRange(0, 4).Draw(t, "average") == 0
 		return c
 	}, func(c cliCase) (o pbt.Outcome, err error) {
-		if !domainOK(c.Ali, c.Cfg, nil) || !c.Cfg.ModelFreqs {
+		if len(c.Alis) == 0 || !c.Cfg.ModelFreqs || (len(c.Alis) > 1 && !c.Phylip) {
 			o.Skip = true
 			return o, nil
 		}
-		in := cli.TempFile(dir, ".fa", cli.Fasta(c.Ali.Rows))
-		args := []string{"compute", "distance", "-m", c.Cfg.Model, "-i", in}
+		for _, a := range c.Alis {
+			if !domainOK(a, c.Cfg, nil) {
+				o.Skip = true
+				return o, nil
+			}
+		}
+		var in string
+		args := []string{"compute", "distance", "-m", c.Cfg.Model}
+		if c.Phylip {
+			in = cli.TempFile(dir, ".phy", phylip(c.Alis))
+			args = append(args, "-p")
+		} else {
+			in = cli.TempFile(dir, ".fa", cli.Fasta(c.Alis[0].Rows))
+		}
+		args = append(args, "-i", in)
 		if c.Cfg.RmGaps {
 			args = append(args, "-r")
 		}
@@ -861,34 +1082,32 @@ func TestCLI(t *testing.T) {
 		}
 		r := cli.Run("", args...)
 		if r.Exit != 0 {
-			return o, fmt.Errorf("goalign %v: exit %d on a valid protein alignment, stderr %q", args, r.Exit, r.Stderr)
+			return o, fmt.Errorf("goalign %v: exit %d on valid protein alignments, stderr %q", args, r.Exit, r.Stderr)
 		}
-		names, d, perr := parseMatrix(r.Stdout)
+		names, ds, perr := parseMatrices(r.Stdout)
 		if perr != nil {
 			return o, fmt.Errorf("goalign %v: unreadable output: %v\n%s", args, perr, r.Stdout)
 		}
-		if len(names) != len(c.Ali.Rows) {
-			return o, fmt.Errorf("goalign %v: %d rows for %d sequences", args, len(names), len(c.Ali.Rows))
+		if len(ds) != len(c.Alis) {
+			return o, fmt.Errorf("goalign %v: %d matrices for %d alignments", args, len(ds), len(c.Alis))
 		}
-		for i, nm := range names {
-			if nm != c.Ali.Rows[i].Name {
-				return o, fmt.Errorf("goalign %v: row %d is named %q, want %q", args, i, nm, c.Ali.Rows[i].Name)
+		var means []float64
+		for k, a := range c.Alis {
+			d := ds[k]
+			if len(names[k]) != len(a.Rows) {
+				return o, fmt.Errorf("goalign %v: matrix %d has %d rows for %d sequences", args, k+1, len(names[k]), len(a.Rows))
 			}
-		}
-		// the printed matrix (12 decimals) under the configuration the flags announce
-		v, err := judge(c.Ali, c.Cfg, nil, d, &o)
-		if err != nil {
-			return o, fmt.Errorf("goalign %v: %v", args, err)
-		}
-		if c.Average {
-			ra := cli.Run("", append(args, "-a")...)
-			if ra.Exit != 0 {
-				return o, fmt.Errorf("goalign %v -a: exit %d, stderr %q", args, ra.Exit, ra.Stderr)
+			for i, nm := range names[k] {
+				if nm != a.Rows[i].Name {
+					return o, fmt.Errorf("goalign %v: matrix %d, row %d is named %q, want %q", args, k+1, i, nm, a.Rows[i].Name)
+				}
 			}
-			got, e := strconv.ParseFloat(strings.TrimSpace(ra.Stdout), 64)
-			if e != nil {
-				return o, fmt.Errorf("goalign %v -a: output %q is not one number", args, ra.Stdout)
+			// the printed matrix (12 decimals) under the configuration the flags announce
+			v, err := judge(a, c.Cfg, nil, d, &o)
+			if err != nil {
+				return o, fmt.Errorf("goalign %v: matrix %d of %d (%s): %v", args, k+1, len(c.Alis), gen.Show(a.Rows), err)
 			}
+			o.NonTrivial = o.NonTrivial || v.nonTrivial
 			sum, cnt := 0.0, 0
 			for i := range d {
 				for j := i + 1; j < len(d); j++ {
@@ -896,12 +1115,29 @@ func TestCLI(t *testing.T) {
 					cnt++
 				}
 			}
-			if math.Abs(got-sum/float64(cnt)) > 1e-9 {
-				return o, fmt.Errorf("goalign %v -a prints %.12f, the mean of the pairs of the printed matrix is %.12f", args, got, sum/float64(cnt))
+			means = append(means, sum/float64(cnt))
+		}
+		if c.Average {
+			ra := cli.Run("", append(args, "-a")...)
+			if ra.Exit != 0 {
+				return o, fmt.Errorf("goalign %v -a: exit %d, stderr %q", args, ra.Exit, ra.Stderr)
+			}
+			f := strings.Fields(ra.Stdout)
+			if len(f) != len(means) {
+				return o, fmt.Errorf("goalign %v -a: %d numbers for %d alignments: %q", args, len(f), len(means), ra.Stdout)
+			}
+			for k, x := range f {
+				got, e := strconv.ParseFloat(x, 64)
+				if e != nil {
+					return o, fmt.Errorf("goalign %v -a: output %q is not a number", args, x)
+				}
+				if math.Abs(got-means[k]) > 1e-9 {
+					return o, fmt.Errorf("goalign %v -a prints %.12f for alignment %d, the mean of the pairs of the printed matrix is %.12f", args, got, k+1, means[k])
+				}
 			}
 			o.Class("average")
 		}
-		o.NonTrivial = v.nonTrivial
+		o.Class("alignments in the file: %d phylip=%v", len(c.Alis), c.Phylip)
 		classes(&o, c.Cfg, false)
 		return o, nil
 	})
